@@ -1251,7 +1251,8 @@ func genPattern(r *lib.Rng) Input {
 	if kind == "having" && r.Bool() {
 		cur = push(Step{K: "derive", P: cur, Op: &Op{K: "group", Xs: g.ids(1)}})
 	}
-	for k := r.Range(1, 4); k > 0; k-- {
+	// 3 and 5..7 single merges leave spare capacity behind (doubling growth): favour them
+	for k := lib.Pick(r, []int{1, 2, 3, 3, 3, 4, 5, 6}); k > 0; k-- {
 		cur = push(Step{K: "derive", P: cur, Op: mk1()})
 	}
 	h := push(Step{K: "sess", P: cur, Sess: lib.Pick(r, []string{"plain", "plain", "ctx", "debug", "begin"})})
@@ -1536,7 +1537,7 @@ func main() {
 	}
 	// witness patterns: k merges of one appendable clause -> Session-like -> two children add one more
 	// each -> both finish (the Returning instance of this pattern is the known finding, kept in corpus/)
-	npat := 96
+	npat := 176
 	if a.Tier == "thorough" {
 		npat = 400
 	}
